@@ -62,7 +62,7 @@ def generate(seed, tier):
         ops.append(["rule_step", int(rng.random() < 0.6), 0])
     two = mode == "step" and rule["kind"] in ("mwkr_pair", "score", "tie") and rng.random() < 0.4
     cfg = {"instance": spec, "rule": rule, "chooser": rng.choice(["first", "random"]), "chooser_how": rng.choice(["str", "enum", "callable"]),
-           "filter": filt, "mode": mode, "two_dispatchers": two, "refused_observer_first": rng.random() < 0.08, "call_form": rng.choice(["call", "call", "solve", "solve_with_dispatcher", "twice"]),
+           "filter": filt, "mode": mode, "two_dispatchers": two, "refused_observer_first": rng.random() < 0.08, "restricted_observers_first": rng.random() < 0.2, "call_form": rng.choice(["call", "call", "solve", "solve_with_dispatcher", "twice"]),
            "clock_seed": rng.randrange(1 << 30), "other_seed": rng.randrange(1 << 30)}
     if two:
         # a second dispatcher over a DIFFERENT instance shares the solver (and, for the observer-based rule, the
@@ -259,6 +259,14 @@ def execute_step(case, ctx):
         harness_scorers = [score_fn(rule["fn"])]
     elif rule["kind"] == "tie":
         harness_scorers = [score_fn(f) for f in rule["fns"]]
+    if cfg.get("restricted_observers_first"):
+        # observers of the types the scorer looks for, but tracking other feature levels, subscribed earlier
+        from job_shop_lib.dispatching.feature_observers import DurationObserver, IsReadyObserver, FeatureType
+
+        for s in sides:
+            for cls, ft in ((DurationObserver, [FeatureType.OPERATIONS]), (IsReadyObserver, [FeatureType.MACHINES])):
+                if (cfg["other_seed"] + len(ft) + (cls is IsReadyObserver)) % 3:
+                    cls(s.disp, feature_types=ft)
     if rule["kind"] == "mwkr_pair":
         # first call in the initial state (the statement's precondition)
         for s in sides:
@@ -402,7 +410,12 @@ def execute_call(case, ctx):
             elif form == "solve_with_dispatcher":
                 from job_shop_lib.dispatching import Dispatcher
 
-                sched = solver.solve(inst, Dispatcher(inst, ready_operations_filter=solver.ready_operations_filter))
+                dd = Dispatcher(inst, ready_operations_filter=solver.ready_operations_filter)
+                for _ in range(cfg["other_seed"] % 3):  # the dispatcher handed over may already have made progress
+                    if not dd.schedule.is_complete():
+                        orig_step(dd)
+                cap_box[0] = max(1, cap_box[0] - 0)  # the cap still bounds the remaining steps
+                sched = solver.solve(inst, dd)
             elif form == "twice":
                 # the same solver object on another instance first (a solver is reusable)
                 other = build({"jobs": [[[[0], 2], [[1], 1]], [[[1], 3]], [[[0], 1]]], "name": "other"})
